@@ -48,7 +48,16 @@ def _gpc_ensures(C, res):
             ('first_the_forward_strand_then_the_reverse_strand', z3.And(z3.Not(F_.rev1), F_.rev2)),
             ('yields_the_forward_result_then_the_reverse_result_each_only_if_it_has_peaks', z3.And(
                 res.len <= 2, forall(k, z3.Implies(rng(0, k, res.len), z3.Or(res.raw(k).t == F_.res1, res.raw(k).t == F_.res2)), [res.raw(k).t]),
-                z3.Implies(res.len == 2, z3.And(res.raw(0).t == F_.res1, res.raw(1).t == F_.res2))))]
+                z3.Implies(res.len == 2, z3.And(res.raw(0).t == F_.res1, res.raw(1).t == F_.res2)))),
+            ('every_result_that_has_a_peak_is_passed_on_whatever_its_score', _passed_on(C, res, F_))]
+
+
+def _passed_on(C, res, F_):
+    from pyvc.dsl import ObjView
+    has = lambda t: ObjView(C._e, C._st, VObj(t, CORR.classes)).peaks.len >= 1
+    p1, p2 = has(F_.res1), has(F_.res2)
+    return z3.And(res.len == z3.If(p1, 1, 0) + z3.If(p2, 1, 0),
+                  z3.Implies(p1, res.raw(0).t == F_.res1), z3.Implies(z3.And(z3.Not(p1), p2), res.raw(0).t == F_.res2))
 
 
 _r0 = lambda C: z3.Const('gpc_none', Ref)
